@@ -210,6 +210,18 @@ theorem C04_rotate (r : Int) :
 
 example : norm_rotate (-90) = 270 ∧ norm_rotate 450 = 90 ∧ norm_rotate (-720) = 0 := by decide
 
+/-- The `rotation` option of `extract_text_to_fp` (regenerated arithmetic): the Rotate used for the
+page is again in 0..359 and congruent to `Rotate + rotation` mod 360, for all integers; so for
+multiples of 90 the page lands as `C04_ctm`/`C04_ctm_bbox` say for that total rotation. -/
+theorem C04_rotation_option (rotate rotation : Int) :
+    0 ≤ add_rotation rotate rotation ∧ add_rotation rotate rotation < 360 ∧
+    (add_rotation rotate rotation - (rotate + rotation)) % 360 = 0 := by
+  simp only [add_rotation, pyMod]
+  rw [Int.fmod_eq_emod_of_nonneg _ (by omega)]
+  omega
+
+example : add_rotation 270 180 = 90 ∧ add_rotation 0 (-90) = 270 := by decide
+
 /-! ## Page selection -/
 
 /-- `get_pages(pagenos, maxpages)` yields exactly the pages whose zero-based index is selected
